@@ -3,7 +3,7 @@ from C01 import TUS as T1
 import C04
 TUS = ['c19.cc'] + T1[1:] + ['kd_tree', 'objects/bezier_curve']
 def ob(id, entry, cases, expect, bounds, mode='real', **kw):
-    d = dict(id=id, harness='c19.cc', entry=entry, mode=mode, cases=cases, expect=expect, bounds=bounds, tus=TUS, stubs=['sqrt/sin/cos/acos uninterpreted with contract axioms (sqrt: r>=0, r^2=x, monotone)'], native=False,
+    d = dict(id=id, harness='c19.cc', entry=entry, mode=mode, cases=cases, expect=expect, bounds=bounds, tus=TUS, stubs=['sqrt/sin/cos/acos uninterpreted with contract axioms (sqrt: r>=0, r^2=x, monotone)'], native=True,
              assumes=['exact-real reading, finite inputs'], outside=['closest point on the Bezier curve (Newton search)', 'Cartesian<->spherical round trip (needs inverse trigonometric identities)', 'rounding'])
     d.update(kw); return d
 OBLIGATIONS = [
